@@ -309,7 +309,7 @@ func (w *World) Apply(ev string) (enabled bool, err error) {
 			return false, nil
 		}
 		return true, w.Deliver()
-	case "i", "k", "z":
+	case "i", "k", "z", "n":
 		return w.ApplyTask(ev)
 	case "y":
 		if len(w.N.Queue) != 0 {
